@@ -145,7 +145,7 @@ inline Parsed tokenize(const std::string &f) {
 		while(true) {
 			char c = at(i);
 			if(c >= '1' && c <= '9' && at(i + 1) == '$') { d.positional = true; d.pos = c - '0'; i += 2; }
-			else if(c == '0' && at(i + 1) == '$') { P.weird = true; i += 2; } // "0$" is no position (n >= 1): undefined input; the lenient reading is a sequential directive
+			else if(c == '0' && at(i + 1) == '$') { P.weird = true; d.positional = false; d.pos = 0; i += 2; } // "0$" is no position (n >= 1): undefined input; the lenient reading is a sequential directive - also when it follows an "n$" in the same directive (the last one wins, as for two positions)
 			else if(c == '-' || c == '+' || c == ' ' || c == '#' || c == '0' || c == '\'') { d.flags.push_back(c); i++; }
 			else break;
 		}
@@ -196,7 +196,8 @@ inline Parsed tokenize(const std::string &f) {
 		for(auto &p : posl) { if(p.second == S_PTR) { if(kind.count(p.first) && kind[p.first] == 1) P.pos_conflict = true; continue; } int k = (p.second == S_INT || p.second == S_CHAR) ? 1 : p.second == S_STR ? 2 : 3; if(kind.count(p.first) && kind[p.first] != k) P.pos_conflict = true; kind[p.first] = k; }
 	}
 	P.slots.assign(maxpos, S_INT);
-	for(auto &p : posl) if(p.first >= 1) { SlotClass &c = P.slots[p.first - 1]; if(c == S_INT) c = p.second; }
+	// the most demanding use of a position decides what is supplied: a string pointer also serves a %p use of the same position
+	for(auto &p : posl) if(p.first >= 1) { SlotClass &c = P.slots[p.first - 1]; if(c == S_INT || (c == S_PTR && (p.second == S_STR || p.second == S_WSTR))) c = p.second; }
 	for(auto c : seq) P.slots.push_back(c);
 	return P;
 }
